@@ -82,6 +82,14 @@ Geyer(st, k, runmin) ==
        IF p <= 0 THEN 0
        ELSE LET q == Min2(p, runmin) IN q + Geyer(st, k + 1, q)
 OutS(st) == IF st.n >= 2 THEN Geyer(st, 0, PairS(st, 0)) ELSE 0
+\* the same sequence as a list of clamped pair numerators (for long arrays whose SUM would exceed 31 bits)
+RECURSIVE GeyerSeq(_, _, _)
+GeyerSeq(st, k, runmin) ==
+  IF 2 * k + 1 > st.n - 1 THEN <<>>
+  ELSE LET p == PairS(st, k) IN
+       IF p <= 0 THEN <<>>
+       ELSE LET q == Min2(p, runmin) IN <<q>> \o GeyerSeq(st, k + 1, q)
+Pairs(a) == LET st == Summ(a) IN IF st.n >= 2 THEN GeyerSeq(st, 0, PairS(st, 0)) ELSE <<>>
 
 (* Rule U for the Geyer cut: the implementation works in f32, so a pair sum within *)
 (* 2^-12 (relative to var+) of zero may legitimately be seen on either side of the *)
